@@ -204,7 +204,13 @@ func vGenScenario(seed int64, mode string, maxN int, allowSlowQuota bool) *vScen
 	nev := n / 12
 	for i := 0; i < nev; i++ {
 		ev := vEvent{When: vTrigger{AfterStarts: 1 + r.Intn(n)}, Ctr: 1 + r.Intn(n)}
-		switch r.Intn(4) {
+		k := r.Intn(4)
+		if sc.Containers[ev.Ctr-1].Behaviour != "normal" {
+			// a process that only ends when signalled needs its cancel/hold
+			// to stay in force: no priority changes for those
+			k = 0
+		}
+		switch k {
 		case 0:
 			ev.Kind = "cancel"
 		case 1:
